@@ -81,11 +81,12 @@ StreamExpect(exp, cuts, isTls) ==
 Pieces(n) == 1..n
 Frame(p) == [piece |-> p]
 Covered(frames, n) == \A p \in Pieces(n) : \E i \in 1..Len(frames) : frames[i].piece = p
-\* datagrams : Seq(Seq(packet)), packet = [frames, pad : "none" | "front" | "between" | "ping", pnLen, other : BOOLEAN (a coalesced non-Initial packet follows)]
+\* datagrams : Seq(Seq(packet)), packet = [frames, pad : "none" | "front" | "between" | "ping", pnLen, other : BOOLEAN (a coalesced non-Initial packet follows), bad]
 FramesUpTo(dgs, k) == LET RECURSIVE Flat(_, _)
                           Flat(i, acc) == IF i > k THEN acc
                                           ELSE LET RECURSIVE P(_, _)
-                                                   P(j, a) == IF j > Len(dgs[i]) THEN a ELSE P(j + 1, a \o dgs[i][j].frames)
+                                                   P(j, a) == IF j > Len(dgs[i]) THEN a
+                                                              ELSE P(j + 1, IF dgs[i][j].bad THEN a ELSE a \o dgs[i][j].frames)   \* a packet that does not authenticate carries nothing
                                                IN Flat(i + 1, P(1, acc))
                       IN Flat(1, <<>>)
 \* before the ranges cover the hello there is no obligation to find the name - but if one is reported it must be the right one
@@ -127,11 +128,12 @@ AddCut == /\ kind \in {"tls", "http", "junk"} /\ stage = 2 /\ Len(cuts) < MaxCut
                 /\ cuts' = Append(cuts, [at |-> c, gap |-> g])
           /\ UNCHANGED <<kind, hello, http, drain, quic, stage>>
 \* quic: append a packet to the last datagram or start a new datagram
-Packets == {[frames |-> fs, pad |-> pd, pnLen |-> pl, other |-> o] :
+\* bad: the packet is a well-formed Initial whose protected payload was corrupted on the way (it does not authenticate)
+Packets == {[frames |-> fs, pad |-> pd, pnLen |-> pl, other |-> o, bad |-> b] :
                fs \in {<<Frame(p)>> : p \in 1..MaxFrames} \cup {<<Frame(p), Frame(q)>> : p \in 1..MaxFrames, q \in 1..MaxFrames}
                       \cup {<<Frame(1), Frame(2), Frame(3)>>, <<Frame(3), Frame(2), Frame(1)>>, <<>>},
                pd \in (IF Depth = "quick" THEN {"none", "between"} ELSE {"none", "front", "between", "ping"}),
-               pl \in (IF Depth = "quick" THEN {1, 4} ELSE 1..4), o \in BOOLEAN}
+               pl \in (IF Depth = "quick" THEN {1, 4} ELSE 1..4), o \in BOOLEAN, b \in BOOLEAN}
 PacketOk(p) == \A i \in 1..Len(p.frames) : p.frames[i].piece <= quic.npieces
 NPackets == LET RECURSIVE C(_) C(i) == IF i > Len(quic.dgs) THEN 0 ELSE Len(quic.dgs[i]) + C(i + 1) IN C(1)
 AddPacket == /\ kind = "quic" /\ stage = 2 /\ NPackets < 3
